@@ -3,6 +3,7 @@
 mod common;
 mod dirdrv;
 mod hookdb;
+mod labeldrv;
 mod refhash;
 mod triedrv;
 mod wire;
@@ -13,6 +14,7 @@ fn main() {
     match sub {
         "dir" => dirdrv::main_dir(&args[2..]),
         "trie" => triedrv::main_trie(&args[2..]),
+        "labels" => labeldrv::main_labels(&args[2..]),
         other => {
             eprintln!("unknown subcommand {other:?}");
             std::process::exit(2);
